@@ -239,7 +239,7 @@ impl Slab {
     ///
     /// The caller must ensure that the object is still present in the slab. Slab handles are just
     /// fat pointers, so ownership and object lifetime must be managed manually by the caller.
-    pub(crate) unsafe fn remove<T: ?Sized>(&mut self, handle: SlabHandle<T>) {
+    pub(crate) unsafe fn remove<T: ?Sized>(&mut self, handle: SlabHandle<T>) -> SlotMeta {
         // we also verify that the pointer matches, because otherwise one might mix up
         // slot 5 in slab A with slot 5 in slab B.
         #[cfg(debug_assertions)]
@@ -292,8 +292,10 @@ impl Slab {
         // Cannot overflow because we asserted above the removed entry was occupied.
         self.count = self.count.wrapping_sub(1);
 
-        // It is now safe to do the drop. If drop() panics, the slab is still in a valid state.
-        drop(old_meta);
+        // The slab is in a valid state from here on. Dropping the returned metadata runs the
+        // object's destructor; the caller does that once its own bookkeeping is complete, so a
+        // panicking destructor cannot leave the pool's bookkeeping behind the slab's.
+        old_meta
     }
 
     /// Removes an object from the slab, returning it.
